@@ -1,14 +1,14 @@
 SPECIFICATION Spec
 CONSTANTS
- Kind = "fub"
- Cap0 = 2
+ Kind = "fu"
+ Cap0 = 1
  NInit = 0
- NC = 3
+ NC = 4
  Budget = 2
  NW = 2
  MaxPolls = 2
  MaxItems = 1
- MaxWakes = 2
+ MaxWakes = 1
  GenMode = FALSE
  CursorFix = FALSE
  AllowFront = FALSE
